@@ -229,6 +229,16 @@ func TestVerifC01Sqlx(t *testing.T) {
 			c.ScanFail = true // the transaction function fails
 			c.Ignored = false
 		}
+		// runtime.Goexit and cancel-mid-request where database/sql is not involved: in the connection provider, which the
+		// code under test calls inside the breaker before any database/sql call (Goexit never comes back from it; the
+		// cancelling request fails there, so no driver call sees the cancelled context)
+		provStage := !stmtSite && !c.ScanFail && !c.Ignored
+		if provStage && c.Panics && r.Chance(1, 3) {
+			c.PanicKind = 3
+		}
+		if provStage && !c.Panics && c.Class != "nil" && c.Ctx == "deadline" && r.Chance(1, 2) {
+			c.Ctx = "cancelmid"
+		}
 	}
 	setup := func(names []string) []string {
 		var ops []string
